@@ -5,6 +5,7 @@ package harness
 // txs (kind, fields, result code) and the observed state after the block.
 
 import (
+	"encoding/json"
 	"fmt"
 	abci "github.com/cometbft/cometbft/abci/types"
 	authtypes "github.com/cosmos/cosmos-sdk/x/auth/types"
@@ -686,6 +687,10 @@ func bankMoves(evs []abciEvent) [][]string {
 // governance shocks applied so far in the current history (harness/govshock.go); written into every step line
 var curShocks []string
 
+// state edits made between the previous block and the next one (oracle outages, governance shocks): written into the next
+// step line when VERIF_RECORD is set, so that the history can be replayed from the file (harness/histreplay.go)
+var curPre []J
+
 var debugAt int64 = -1
 var debugT *testing.T
 
@@ -706,8 +711,24 @@ func emitBlock(w *World, out *Out, hi int, txs []*histTx, dt time.Duration, stat
 	for _, x := range txs {
 		reqs = append(reqs, x.req)
 	}
+	var rec J
+	if os.Getenv("VERIF_RECORD") != "" {
+		rtx := []J{}
+		for _, x := range txs {
+			ms := []json.RawMessage{}
+			for _, m := range x.req.Msgs {
+				ms = append(ms, c17MsgJSON(w, m))
+			}
+			rtx = append(rtx, J{"signer": x.req.Signer.Addr.String(), "fee": x.req.Fee.String(), "gas": x.req.Gas, "msgs": ms})
+		}
+		rec = J{"pre": append([]J{}, curPre...), "txs": rtx, "dtNanos": int64(dt)}
+	}
+	curPre = nil
 	res := w.Block(dt, reqs)
 	line := J{"t": "hist.step", "id": hi, "h": res.Height, "dt": int64(dt / time.Second)}
+	if rec != nil {
+		line["rec"] = rec
+	}
 	if len(curShocks) > 0 {
 		line["shocks"] = append([]string{}, curShocks...)
 	}
@@ -831,56 +852,25 @@ func runHist(t *testing.T, seed int64, n int, out *Out) {
 	focus := os.Getenv("VERIF_FOCUS")
 	for hi := 0; hi < nHist; hi++ {
 		hseed := seed*100 + int64(hi)
-		w := NewWorld(t, hseed, 7)
-		// one history in four runs in a world where uatom is worth less than uusdc per base unit
-		atomPrice := []string{"5", "5", "5", "0.25"}[rand.New(rand.NewSource(hseed^0x5eed)).Intn(4)]
+		// world variants: one history in four runs in a world where uatom is worth less than uusdc per base unit; one in three
+		// with Eden inflation switched on (the production configuration: liquidity-mining and staking rewards in Eden every
+		// block, Eden rewards enabled on the pools, the provider's portion vested at the ten-day epochs); one in five has whales
+		// (leveraged positions sized up to a large fraction of the pool: saturation, refusals by the pool-health and
+		// custody-backing checks); governance-permitted variants of the leveragelp fallback sweep: every block (default), one
+		// position per block, every 7th block, or off (then only bots' ClosePositions messages liquidate)
+		wv := histWorldVariant{AtomPrice: []string{"5", "5", "5", "0.25"}[rand.New(rand.NewSource(hseed^0x5eed)).Intn(4)],
+			Inflation: rand.New(rand.NewSource(hseed^0x1f1a)).Intn(3) == 0 || os.Getenv("VERIF_INFLATION") != "",
+			Whale:     rand.New(rand.NewSource(hseed^0x3a1e)).Intn(5) == 0 || os.Getenv("VERIF_WHALE") != "",
+			Sweep:     []string{"default", "default", "one-per-block", "every-7-blocks", "off"}[rand.New(rand.NewSource(hseed^0x5bee)).Intn(5)]}
 		if v := os.Getenv("VERIF_ATOM_PRICE"); v != "" {
-			atomPrice = v
+			wv.AtomPrice = v
 		}
-		std := w.SeedStandardAt(D(atomPrice))
-		h := &Hist{w: w, std: std, r: rand.New(rand.NewSource(hseed)), focus: focus}
-		inflation := false
-		// one history in three runs with Eden inflation switched on (the production configuration: liquidity-mining and staking
-		// rewards in Eden every block, the provider's portion vested at the ten-day epochs)
-		if rand.New(rand.NewSource(hseed^0x1f1a)).Intn(3) == 0 || os.Getenv("VERIF_INFLATION") != "" {
-			w.Seed(func(ctx sdk.Context) {
-				bpy := w.App.ParameterKeeper.GetParams(ctx).TotalBlocksPerYear
-				w.App.TokenomicsKeeper.SetTimeBasedInflation(ctx, toktypes.TimeBasedInflation{StartBlockHeight: 1, EndBlockHeight: 1_000_000_000, Description: "verif",
-					Authority: w.Gov, Inflation: &toktypes.InflationEntry{LmRewards: bpy * 1_000_000, IcsStakingRewards: bpy * 1_000_000, CommunityFund: bpy * 1000, StrategicReserve: 0, TeamTokensVested: 0}})
-				enableEdenRewards(w, ctx)
-			})
-			inflation = true
-		}
-		// one history in five has whales: leveraged positions sized up to a large fraction of the pool (saturation, refusals
-		// by the pool-health and custody-backing checks)
-		h.whale = rand.New(rand.NewSource(hseed^0x3a1e)).Intn(5) == 0 || os.Getenv("VERIF_WHALE") != ""
-		// seed some claimed Eden / EdenB so commitment ops have something to work with
-		w.Seed(func(ctx sdk.Context) {
-			for _, a := range w.Accts[:4] {
-				c := w.App.CommitmentKeeper.GetCommitments(ctx, a.Addr)
-				c.AddClaimed(sdk.NewCoin("ueden", math.NewInt(5_000_000_000)))
-				c.AddClaimed(sdk.NewCoin("uedenb", math.NewInt(1_000_000_000)))
-				w.App.CommitmentKeeper.SetCommitments(ctx, c)
-			}
-		})
-		// governance-permitted variants of the leveragelp fallback sweep: every block (default), one position per block,
-		// every 7th block, or off (then only bots' ClosePositions messages liquidate)
-		sweep := []string{"default", "default", "one-per-block", "every-7-blocks", "off"}[h.r.Intn(5)]
 		if v := os.Getenv("VERIF_LPSWEEP"); v != "" {
-			sweep = v
+			wv.Sweep = v
 		}
-		w.Seed(func(ctx sdk.Context) {
-			p := w.App.LeveragelpKeeper.GetParams(ctx)
-			switch sweep {
-			case "one-per-block":
-				p.NumberPerBlock = 1
-			case "every-7-blocks":
-				p.EpochLength = 7
-			case "off":
-				p.FallbackEnabled = false
-			}
-			_ = w.App.LeveragelpKeeper.SetParams(ctx, &p)
-		})
+		w, std := histWorld(t, hseed, wv)
+		h := &Hist{w: w, std: std, r: rand.New(rand.NewSource(hseed)), focus: focus, whale: wv.Whale}
+		inflation := wv.Inflation
 		r0 := w.Block(5*time.Second, nil)
 		if r0.Err != nil || r0.Panicked {
 			t.Fatalf("first block failed: %v %s", r0.Err, r0.PanicText)
@@ -889,7 +879,7 @@ func runHist(t *testing.T, seed int64, n int, out *Out) {
 		for _, p := range std.Pools {
 			pools = append(pools, J{"id": p.Id, "addr": p.Addr, "oracle": p.Oracle, "perp": p.Perp, "denoms": p.Denoms, "shareDenom": p.ShareDen, "treasury": p.Treasury})
 		}
-		out.Line(J{"t": "hist.begin", "id": hi, "seed": hseed, "names": w.Names, "pools": pools, "obs": w.Observe()})
+		out.Line(J{"t": "hist.begin", "id": hi, "seed": hseed, "world": wv, "names": w.Names, "pools": pools, "obs": w.Observe()})
 		stats := map[string]int{}
 		if inflation {
 			stats["world/inflation-on"]++
@@ -912,6 +902,7 @@ func runHist(t *testing.T, seed int64, n int, out *Out) {
 						}
 					}
 				})
+				curPre = append(curPre, J{"kind": "removePrices", "assets": which})
 				faultNote = "oracle-outage:" + strings.Join(which, "+")
 				stats["fault/"+faultNote]++
 			}
@@ -971,4 +962,48 @@ func enableEdenRewards(w *World, ctx sdk.Context) {
 		pi.EnableEdenRewards = true
 		w.App.MasterchefKeeper.SetPoolInfo(ctx, pi)
 	}
+}
+
+// histWorldVariant: everything about a history's world that is not derived from its seed alone (recorded in hist.begin so
+// that a stored history can be replayed, harness/histreplay.go).
+type histWorldVariant struct {
+	AtomPrice string `json:"atomPrice"`
+	Inflation bool   `json:"inflation"`
+	Whale     bool   `json:"whale"`
+	Sweep     string `json:"sweep"`
+}
+
+func histWorld(t *testing.T, hseed int64, wv histWorldVariant) (*World, *Std) {
+	w := NewWorld(t, hseed, 7)
+	std := w.SeedStandardAt(D(wv.AtomPrice))
+	if wv.Inflation {
+		w.Seed(func(ctx sdk.Context) {
+			bpy := w.App.ParameterKeeper.GetParams(ctx).TotalBlocksPerYear
+			w.App.TokenomicsKeeper.SetTimeBasedInflation(ctx, toktypes.TimeBasedInflation{StartBlockHeight: 1, EndBlockHeight: 1_000_000_000, Description: "verif",
+				Authority: w.Gov, Inflation: &toktypes.InflationEntry{LmRewards: bpy * 1_000_000, IcsStakingRewards: bpy * 1_000_000, CommunityFund: bpy * 1000, StrategicReserve: 0, TeamTokensVested: 0}})
+			enableEdenRewards(w, ctx)
+		})
+	}
+	// seed some claimed Eden / EdenB so commitment ops have something to work with
+	w.Seed(func(ctx sdk.Context) {
+		for _, a := range w.Accts[:4] {
+			c := w.App.CommitmentKeeper.GetCommitments(ctx, a.Addr)
+			c.AddClaimed(sdk.NewCoin("ueden", math.NewInt(5_000_000_000)))
+			c.AddClaimed(sdk.NewCoin("uedenb", math.NewInt(1_000_000_000)))
+			w.App.CommitmentKeeper.SetCommitments(ctx, c)
+		}
+	})
+	w.Seed(func(ctx sdk.Context) {
+		p := w.App.LeveragelpKeeper.GetParams(ctx)
+		switch wv.Sweep {
+		case "one-per-block":
+			p.NumberPerBlock = 1
+		case "every-7-blocks":
+			p.EpochLength = 7
+		case "off":
+			p.FallbackEnabled = false
+		}
+		_ = w.App.LeveragelpKeeper.SetParams(ctx, &p)
+	})
+	return w, std
 }
